@@ -1,5 +1,5 @@
 \* C15 thorough bound: three distinct file timestamps (request timestamps 1..4), TXIDs 1..4, <= 3 files.
-\* The runner rewrites `Part = 0` for every shard 0..Parts-1.
+\* The runner rewrites `Part = 0` for every shard 0..Parts-1 (one TLC process each, several workers: Fanout).
 SPECIFICATION Spec
 CONSTANTS
   N = 4
@@ -7,6 +7,7 @@ CONSTANTS
   MaxFiles = 3
   MaxTs = 3
   Part = 0
-  Parts = 16
+  Parts = 1
+  Fanout = TRUE
 INVARIANTS TsExcluded TsFurthest TsMonotone Sound CompleteLatest
 CHECK_DEADLOCK FALSE
